@@ -249,6 +249,57 @@ pub fn drive(log: &mut Log) {
     let mut case: u64 = 0;
     let dens: [u32; 5] = [2, 3, 4, 5, 10];
 
+    // (0) spec -> impl: the model family the MC run explores (S = 2, M = 2, Den = 2: every
+    // sub-stochastic transition matrix, reduced emission / initial / end families), every
+    // observation sequence of length 1..3, replayed into the real code. Quick tier: one
+    // eighth of the family (selected by the seed), thorough: all of it.
+    {
+        let rows2: Vec<Vec<u32>> = vec![vec![0, 0], vec![0, 1], vec![0, 2], vec![1, 0], vec![1, 1], vec![2, 0]];
+        let erows: Vec<Vec<u32>> = vec![vec![1, 1], vec![2, 0], vec![0, 1]];
+        let irows: Vec<Vec<u32>> = vec![vec![1, 1], vec![0, 2], vec![1, 0]];
+        let ends: Vec<Option<Vec<u32>>> = vec![None, Some(vec![1, 2])];
+        let mut all_obs: Vec<Vec<usize>> = vec![];
+        for t in 1..=3usize {
+            for code in 0..(1usize << t) {
+                all_obs.push((0..t).map(|i| (code >> i) & 1).collect());
+            }
+        }
+        let mut k: u64 = 0;
+        for a0 in &rows2 {
+            for a1 in &rows2 {
+                for b0 in &erows {
+                    for b1 in &erows {
+                        for pi in &irows {
+                            for e in &ends {
+                                k += 1;
+                                case += 1;
+                                if !log.opts.thorough() && k % 8 != seed % 8 {
+                                    continue;
+                                }
+                                if !log.mine(case) {
+                                    continue;
+                                }
+                                let md = Mdl {
+                                    s: 2,
+                                    m: 2,
+                                    den: 2,
+                                    a: vec![a0.clone(), a1.clone()],
+                                    b: vec![b0.clone(), b1.clone()],
+                                    pi: pi.clone(),
+                                    eps: e.clone().unwrap_or(vec![2, 2]),
+                                    kind: if e.is_some() { "optend_some" } else if k % 2 == 0 { "plain" } else { "optend_none" },
+                                    ctor: "float",
+                                };
+                                log.oblige("mc_family");
+                                run_model(log, "ex", &md, &all_obs);
+                            }
+                        }
+                    }
+                }
+            }
+        }
+    }
+
     // (a) general random models, all kinds, all constructors
     for _ in 0..log.opts.n(700, 6000) {
         case += 1;
